@@ -12,11 +12,11 @@ C = {
  "C03": ("S", "model_checking", "submit/cancel programs and the full (chunksize, lengths) product of map calls are executed under all schedules/timeouts within the bound; results compared with a reference evaluation computed by the checker, body executions counted", S_NOTE, S_TECH),
  "C04": ("S", "model_checking", "every kind of task-level failure at several positions and queue fill levels, all schedules within the bound: each future must hold exactly its expected outcome, pool unbroken, slot semaphore restored", S_NOTE, S_TECH),
  "C05": ("S", "model_checking", "every shutdown form at every point of small programs, all schedules/timeouts within the bound (+ kills inside the shutdown phase, + submit racing with shutdown under a starvation policy at bound 2)", S_NOTE, S_TECH),
- "C06": ("S", "model_checking", "forced shutdown reached in every pool state of small programs (queued/running/blocked tasks, already flagged, escalation from a second thread), all schedules within the bound; call returns although blocked tasks never finish; futures fail with ShutdownExecutorError; workers dead and reaped", S_NOTE + "; process-tree kill on real nested processes is not covered by this check", S_TECH),
+ "C06": ("S", "model_checking", "forced shutdown reached in every pool state of small programs (queued/running/blocked tasks, already flagged, escalation from a second thread), all schedules within the bound; call returns although blocked tasks never finish; futures fail with ShutdownExecutorError; workers dead and reaped", S_NOTE + "; the process-tree clause is decided in the simulator on every rooted tree with <= 4-5 processes (real kill_process_tree, psutil and pgrep paths), not on real nested processes", S_TECH),
  "C07": ("S", "model_checking", "idle timeouts fire at every decision point (T deviations) of programs mixing submissions, idle periods, resizes and shutdown: never broken, every task completes exactly once, exit status 0", S_NOTE, S_TECH),
  "C08": ("S", "model_checking", "monitor evaluated at every decision point of every explored execution (bodies inside a task and registered workers <= max_workers in force) + saturation programs that must reach max_workers simultaneous bodies at quiescence", S_NOTE, S_TECH),
  "C10": ("S", "model_checking", "all (old,new) size pairs with in-flight work and timeouts; deviations P/T/K at every step of _resize, also under an eager-manager policy", S_NOTE, S_TECH),
- "C20": ("S", "model_checking", "each lifecycle is run twice in the same simulated process, releasing the executor and letting the system settle after each; the parent's fd table, threads, children (zombies) and linked semaphores must not grow, and be empty after clean lifecycles; all schedules within the bound", S_NOTE + "; real /proc accounting is not covered by this check", S_TECH),
+ "C20": ("S", "model_checking", "each lifecycle is run twice in the same simulated process, releasing the executor and letting the system settle after each; the parent's fd table, threads, children (zombies) and linked semaphores must not grow, and be empty after clean lifecycles; all schedules within the bound", S_NOTE + "; plus the same lifecycles on real processes (/proc/self/fd, threads, children incl. zombies, /dev/shm semaphores after 1 vs 3 repetitions)", S_TECH + " + enumeration of lifecycle sequences on real processes"),
  "C11": ("Q", "model_checking", "explicit-state BFS over request histories of the real tracker loop against a reference model of the counting rule; end-of-file after every history", "cleanup functions, open(), signal, sys, warnings of the tracker module substituted by recorders; depth bound stated in the evidence", "explicit-state BFS over histories of the real main() loop with a reference model (every transition executed on the implementation)"),
  "C14": ("C14", "model_checking", "complete stateful exploration (visited-set DFS) of all interleavings and all timer-firing instants of small harnesses over the real synchronize.py, threads and pickled per-process copies", "SimSemLock == _multiprocessing.SemLock as bound by vf.selftest; kernel fairness not assumed", "complete explicit-state exploration of the implementation with state hashing (frames + kernel objects)"),
  "C09": ("S", "model_checking", "BFS over histories of get_reusable_executor calls, crashes, shutdowns (waited or not), idle periods and submissions (state = documented decision state + what the implementation can tell apart), each history executed on the real code and compared step by step with a reference model; racing callers from 2-3 threads explored within the deviation bound", S_NOTE, "explicit-state BFS over operation histories executed on the implementation + deviation-bounded schedule exploration"),
